@@ -27,8 +27,10 @@ RULE = ('(a) FProg programs (fprog.gen, full layout variation) + 0-5 edits; an e
         'accepts: unmodified identity and one inserted comment per file. Oracles: (i) unmodified: whole-file output == text, '
         'every unit output == its lines; (ii) after edits: every top-most node that still reports source.is_valid() appears with '
         'exactly its original lines, in order, and two such nodes with nothing invalid between them are adjacent in the output; '
-        'inserted markers occur exactly once; (iii) stdout(conservative output + driver) == stdout(standard fgen output of the '
-        'same IR + driver) on 4 input vectors. Triggers of the listed root causes are removed from the generated programs '
+        'inserted markers occur exactly once; a one-line IF / WHERE that is re-generated is not followed by its own source line; '
+        '(iii) stdout(conservative output + driver) == stdout(standard fgen output of the same IR + driver) on 4 input vectors; '
+        '(iv) VALID means unchanged: no node reports a valid source above a new / invalidated / removed node, and the source text '
+        'of a VALID assignment or call mentions every variable of the node. Triggers of the listed root causes are removed from the generated programs '
         '(excluded_by_construction) while the committed replay of the root cause still fails. non-trivial = history with >= 1 '
         'applied edit at nesting depth >= 1 and >= 1 node of the edited file that keeps a valid source; distinct by JSON case')
 ASSUMPTIONS = ['edit protocol: an edit that leaves a container (unit, contains section, file section) VALID is caller misuse; '
@@ -45,6 +47,7 @@ SHARDS = {'quick': 8, 'thorough': 16}
 BUDGET = {'quick': 75, 'thorough': 1500}
 
 PROFILE = gen.profile()
+PROFILE_THOROUGH = gen.profile(max_stmts=10, max_depth=4)
 
 # listed root causes: name -> committed replay (the exclusion is active while the replay still fails)
 KNOWN = {
@@ -54,6 +57,7 @@ KNOWN = {
     'continued-block-header': 'replays/C03/continued-block-header-truncated.json',
     'labelled-do': 'replays/C03/labelled-do-continue-repeated.json',
     'shared-line': 'replays/C03/statements-sharing-a-line-repeated.json',
+    'removed-node': 'replays/C03/removed-only-statement-still-written.json',
 }
 
 
@@ -159,13 +163,14 @@ def edits(draw, lo=0, hi=4):
 
 
 @st.composite
-def cases(draw, active=()):
-    case = draw(gen.cases(PROFILE))
+def cases(draw, active=(), big=False):
+    """big (thorough tier): larger programs, up to 8 edits"""
+    case = draw(gen.cases(PROFILE_THOROUGH if big else PROFILE))
     counts = sanitise(case, set(active))
     if counts:
         case['excluded'] = counts
     # kernel is the last unit: bias the unit choice towards it by drawing larger indices more often
-    case['edits'] = draw(edits(0 if draw(st.integers(0, 14)) == 0 else 1, 5))
+    case['edits'] = draw(edits(0 if draw(st.integers(0, 14)) == 0 else 1, 8 if big else 5))
     return case
 
 
@@ -258,6 +263,11 @@ def check_source(text, case, ctx, active, prog=None, spans=None, classes=()):
         ctx.case(case, False, classes + ['no-edit-applied'])
         return
     trig = ce.triggers(sf)
+    for r in applied:
+        if r.get('stale_parent'):
+            ctx.fail('C03:valid-source-above-removed-node', case, f"{r['unit']}: a {r.get('kind')} was removed, "
+                     f"its parent {r['stale_parent']} keeps a VALID source (the statement is still written)")
+            trig = sorted(set(trig) | {'removed-node'})
     nvalid = ce.count_valid_leaves(sf)
     nontrivial = any(r.get('depth', 0) >= 1 for r in applied) and nvalid >= 1
     classes.append('edits=' + str(len(applied)))
@@ -289,7 +299,8 @@ def check_source(text, case, ctx, active, prog=None, spans=None, classes=()):
     if len(ctx.samples) < 3 and nontrivial:
         ctx.sample({'edits': applied, 'conservative_output_excerpt': excerpt(cons, applied)})
     # ---- (iii) behaviour
-    breaking = [t for t in trig if t in ce.BREAKING]
+    # (replay: active is None, every recognised trigger names the failure; search: only the root causes that still reproduce)
+    breaking = [t for t in trig if t in ce.BREAKING and (active is None or t in active)]
     if prog is None:
         if case.get('compile'):
             # stand-alone text: the conservative output must at least be accepted by gfortran when the standard output is
@@ -304,12 +315,10 @@ def check_source(text, case, ctx, active, prog=None, spans=None, classes=()):
                 tag = breaking[0] if breaking else 'unlisted'
                 ctx.fail(f'C03:behaviour:{tag}:conservative-output-does-not-compile', case, cand.err[-700:])
         return
-    if breaking and active:
-        hit = [t for t in breaking if t in active]
-        if hit:
-            for t in hit:
-                ctx.exclude(f'behaviour-oracle-skipped:known:{t}')
-            return
+    if breaking and active is not None:
+        for t in breaking:
+            ctx.exclude(f'behaviour-oracle-skipped:known:{t}')
+        return
     pcase, rendered, driver = prog
     try:
         std = sf.to_fortran()
@@ -348,7 +357,7 @@ def excerpt(cons, applied):
     return lines[:12]
 
 
-def check_case(case, ctx, active=()):
+def check_case(case, ctx, active=None):
     if 'file' in case:
         path = os.path.join(REPO, case['file'])
         with open(path, errors='replace') as f:
@@ -376,7 +385,7 @@ def probe_known():
             continue
         data = findings.load_replay(path)
         sub = Ctx(ID, 'quick', 0)
-        check_case(data['case'], sub)
+        check_case(data['case'], sub, None)
         if data['sig'] in sub.failures:
             active.append(name)
     return active
@@ -412,10 +421,10 @@ def run_shard(ctx):
     n = ctx.scale(240, 3600)
     k = 0
     while k * 4 < n and not ctx.out_of_time():
-        ctx.given(cases(active), lambda c, cx: check_case(c, cx, active), min(4, n - k * 4), label=f'gen{k}')
+        ctx.given(cases(active, big=ctx.thorough), lambda c, cx: check_case(c, cx, active), min(4, n - k * 4), label=f'gen{k}')
         k += 1
     ctx.extra['generated_cases_planned'] = n
 
 def replay(case, ctx):
-    check_case(case, ctx, ())
+    check_case(case, ctx, None)
     return [(s, e['detail']) for s, e in ctx.failures.items()]
